@@ -80,6 +80,10 @@ E2E_GROUP = {
     "targ-func-of-local1-vs-local2": "targ-fallback",
     "V-implements-I-pkgpath-sorts-before-exported": "implements-order", "V-I-Foo@e2e2": "implements-order",
 }
+# func literals over a type local to a generic function: wrong dynamic type in every instance but the first compiled
+for _pre in ("int-", "str-"):
+    for _n in ("func-of-recvchan", "func-returning-sendchan", "func1", "func-variadic", "func-slice"):
+        E2E_GROUP[_pre + "local-" + _n + "-as-same"] = "generic-local-func-literal-type"
 
 
 def run_e2e(ck, recs):
@@ -95,7 +99,11 @@ def run_e2e(ck, recs):
     def one(pm):
         sub, mod = pm
         d = os.path.join(ck.work, "prog_" + sub)
-        e2e.write_module(d, load_prog(sub), modname=mod)
+        files = load_prog(sub)
+        if ck.tier == "quick" and "p/patchstd.go" in files:
+            # importing sync adds ~40 s of llgo build: the std-element probes run in the thorough tier only
+            files["p/patchstd.go"] = "package p\n\nfunc PatchedStdProbes(pre string) {}\n"
+        e2e.write_module(d, files, modname=mod)
         ref = os.path.join(ck.work, sub + ".ref")
         rc, log = e2e.go_build(d, ref)
         if rc != 0:
